@@ -209,11 +209,13 @@ class Report:
         self.new.append((signature, payload, seed, run))
 
     def finish(self, max_print=20) -> int:
-        for sig in sorted(self.known_hit):
+        for sig in sorted(self.known):
             text = self.known[sig]
             if text.startswith("property="):
                 text = text.split(" ", 1)[1] if " " in text else ""
-            print(f"KNOWN-FINDING: property={self.prop} {text} (met {self.known_hit[sig]}x)")
+            n_met = self.known_hit.get(sig, 0)
+            print(f"KNOWN-FINDING: property={self.prop} {text} "
+                  + (f"(met {n_met}x in this run)" if n_met else "(listed; not met in this run)"))
         seen = set()
         n = 0
         for sig, payload, seed, run in self.new:
